@@ -236,6 +236,10 @@ def lens_spec(draw, profile='paraxial', min_surfs=1, max_surfs=None, force_infin
             kc = 0.0
             if P.allow_conic and draw(st.integers(0, 2)) == 0:
                 kc = draw(f(-4.0, 2.0))
+                if abs(1 + kc) < 1e-3:
+                    # 0 < |1+k| << 1 is the degenerate corner of known finding C05-parabola-cancellation
+                    # (a ~ 1e-16 in the conic quadratic); exact paraboloids take the library's a == 0 branch
+                    kc = -1.0
             if kc > -1:
                 rho = max(rho, 1.1 * math.sqrt(1 + kc))
             s['R'] = sign * rho * h
